@@ -7,6 +7,7 @@ import (
 	"fmt"
 	"io/ioutil"
 	"math"
+	"math/big"
 	"math/rand"
 	"os"
 	"path/filepath"
@@ -179,6 +180,86 @@ func provokeAll(cur *ucfg.Config, v interface{}, path []string, fname string, fr
 	return "", ""
 }
 
+// typedExpect: what Uint / Int / Float of a number token must give (exact arithmetic); asFloat: the token as a
+// decoder that reads every number as float64 sees it (deviation JsonNumbersAsFloat64)
+func typedExpect(tok string, asFloat bool) (out [4]string) {
+	r, ok := new(big.Rat).SetString(tok)
+	if !ok {
+		return [4]string{"?", "?", "?", "?"}
+	}
+	if asFloat {
+		f, _ := r.Float64()
+		r = new(big.Rat).SetFloat64(f)
+	}
+	t := new(big.Int).Quo(r.Num(), r.Denom()) // toward zero
+	out[0], out[1] = "err", "err"
+	if r.Sign() >= 0 && t.IsUint64() {
+		out[0] = "ok:" + t.String()
+	}
+	if t.IsInt64() {
+		out[1] = "ok:" + t.String()
+	}
+	f, _ := r.Float64()
+	out[2] = "ok:" + canonFloat(f)
+	out[3] = "err" // a number is never a bool, whatever the front-end made of it
+	return
+}
+
+// typedAll walks the expected observation and reads every number leaf through the three numeric getters
+func typedAll(cur *ucfg.Config, exp interface{}, path []string, visit func(at, tok string, got [4]string)) {
+	read := func(name string, idx int, x interface{}) {
+		at := strings.Join(path, "/") + "/" + name + fmt.Sprintf("#%d", idx)
+		switch v := x.(type) {
+		case string:
+			if !strings.HasPrefix(v, "n:") {
+				return
+			}
+			var got [4]string
+			if b, err := cur.Bool(name, idx); err != nil {
+				got[3] = "err"
+			} else {
+				got[3] = "ok:" + strconv.FormatBool(b)
+			}
+			if u, err := cur.Uint(name, idx); err != nil {
+				got[0] = "err"
+			} else {
+				got[0] = "ok:" + strconv.FormatUint(u, 10)
+			}
+			if i, err := cur.Int(name, idx); err != nil {
+				got[1] = "err"
+			} else {
+				got[1] = "ok:" + strconv.FormatInt(i, 10)
+			}
+			if f, err := cur.Float(name, idx); err != nil {
+				got[2] = "err"
+			} else {
+				got[2] = "ok:" + canonFloat(f)
+			}
+			visit(at, v[2:], got)
+		case map[string]interface{}, []interface{}:
+			sub, err := cur.Child(name, idx)
+			if err != nil || sub == nil {
+				return
+			}
+			seg := name
+			if name == "" {
+				seg = fmt.Sprint(idx)
+			}
+			typedAll(sub, x, append(append([]string{}, path...), seg), visit)
+		}
+	}
+	switch x := exp.(type) {
+	case map[string]interface{}:
+		for _, k := range sortedKeys(x) {
+			read(k, -1, x[k])
+		}
+	case []interface{}:
+		for i, e := range x {
+			read("", i, e)
+		}
+	}
+}
+
 // knownDevs: the deviations listed as open findings for this family (VERIF_KNOWN, set by bin/check)
 func knownDevs() map[string]bool {
 	m := map[string]bool{}
@@ -321,6 +402,30 @@ func loadersReplay(args []string) int {
 								if cls, msg := provokeAll(cfg, m, nil, fname, fromFile); cls != "" {
 									rep.violate(cls, raw, msg, "an error about a setting read from a file mentions "+fname+" (and only then)", what)
 									return
+								}
+								// typed targets: every number of the document read as uint64, int64 and float64 must be the
+								// value of the document's token (numbers compared by value), in every front-end
+								var e normExp
+								if json.Unmarshal(exp, &e) == nil && e.Ok != nil {
+									bad := ""
+									typedAll(cfg, e.Ok.M.canon(), nil, func(at, tok string, got [4]string) {
+										if bad != "" {
+											return
+										}
+										ideal := typedExpect(tok, false)
+										if got == ideal {
+											return
+										}
+										if known["JsonNumbersAsFloat64"] && ld.name != "yaml" && got == typedExpect(tok, true) {
+											rep.okKnown([]string{"JsonNumbersAsFloat64"}, raw)
+											return
+										}
+										bad = fmt.Sprintf("%s = %s: Uint/Int/Float/Bool gave %v, the token denotes %v", at, tok, got, ideal)
+									})
+									if bad != "" {
+										rep.violate("typed-read", raw, bad, "the value of the document's number in every front-end", what)
+										return
+									}
 								}
 							}
 						}
